@@ -2,8 +2,12 @@
 # Model: Like.v (like_seq with the per-query cache); theorems: Props/C17.v.
 # Correspondence: `select like(a1, a2)` through rbql.query_table (Python) and rbql-js query_table (node);
 # every row carries its own (text, pattern), so one query exercises the regex cache across many patterns.
+# Second tie (props/fngen.py, job `like`): like_to_regex of both ports (and regexp_escape of rbql.js) is TRANSLATED into Gallina on every run
+# (harness/translate_fn.py); the generated obligations gen_like_to_regex_eq / gen_js_like_to_regex_eq (= LikeIx.v, proved to write the text of
+# Like.like_to_regex, which parse_pattern reads back) are compiled beside the correspondence run.
 import itertools
 import lib
+from props import fngen
 
 ALPHA = 'ab%_.*\\[(^$+?|'
 THEOREM = 'C17_like_correct / C17_cache_coherent (Props/C17.v): like_seq = map SqlLike-decider'
@@ -110,6 +114,38 @@ def bmp_only(case):
 
 
 def run(ctx):
+    gen = fngen.start(ctx, 'like')      # translation of like_to_regex + generated obligations, beside the correspondence run
+    failure = None
+    try:
+        run_correspondence(ctx)
+    except lib.CheckFailure as e:
+        failure = e
+    fngen.finish(ctx, gen, search_more=(lambda langs: extended_search(ctx, langs)) if failure is None else None)
+    if failure is not None:
+        raise failure
+
+
+def extended_search(ctx, langs):
+    """a generated obligation broke and the tier's run found no failing input: the thorough tier's pair generator (capped) on the legs whose
+    translation broke, through the public path"""
+    class T_:
+        tier = 'thorough'
+        rng = ctx.rng
+    pairs = gen_pairs(T_)
+    ctx.rng.shuffle(pairs)
+    cases = to_cases(pairs[:400000], ctx.rng)
+    for name in langs:
+        fl = 0 if name == 'py' else 1
+        args = [lib.enc([fl, [[t, p] for t, p in c['rows']]]) for c in cases]
+        model = lib.run_model(17, args)
+        exp = [[bool(b) for b in m] for m in model]
+        got = lib.run_impl_py('c17', cases) if fl == 0 else lib.run_impl_js('c17', cases, shards=8)
+        ctx.compare([dict(c, impl=name) for c in cases], exp, got, THEOREM, shrink=shrink,
+                    describe=lambda c, e, g: 'like() differs from SQL LIKE on %s (extended search): %s' % (c['impl'], first_diff(c, e, g)))
+        ctx.stat('extended_search_pairs_' + name, sum(len(c['rows']) for c in cases))
+
+
+def run_correspondence(ctx):
     pairs = gen_pairs(ctx)
     ctx.rule = ('all (text, pattern) over the 14-letter alphabet {a b %% _ . * \\ [ ( ^ $ + ? |} up to length %s exhaustively, '
                 'structured random pairs up to length 5 (pattern derived from text), random Unicode pairs incl. LF/CR/U+2028; '
@@ -165,6 +201,8 @@ def first_diff(c, e, g):
 
 
 def replay(ctx, case):
+    if 'fngen_obligation' in case:
+        return fngen.replay(ctx, case)
     fl = 0 if case.get('impl', 'py') == 'py' else 1
     args = [lib.enc([fl, [[t, p] for t, p in case['rows']]])]
     exp = [[bool(b) for b in lib.run_model(17, args)[0]]]
